@@ -481,7 +481,9 @@ for _name, _kinds, _rule in [
                       + ([("u", {"plant": ["dupunexp"], "units": [1, 2], "p_twin": 0.0, "plant_p": 1.0, "p_lib_structs": 0.9, "p_func": 0.85,
                                  "min_structs": 5, "max_structs": 9})] if _name == "C05" else []), _pairs_plan, set(), _planted,
                        n_quick=60, n_thorough=600, build=False, runit=False, extra=_planted_oracle(_kinds))]
-             + ([lambda rep, tier: __import__("vlib.c02tier", fromlist=["x"]).run_dup_spellings(rep, tier)] if _name == "C05" else []))
+             + ([lambda rep, tier: __import__("vlib.c02tier", fromlist=["x"]).run_dup_spellings(rep, tier)] if _name == "C05" else [])
+             # the removed source is the one of an embedded field of a struct provider ("*" or named)
+             + ([lambda rep, tier: __import__("vlib.c12tier", fromlist=["x"]).run_embedded_missing(rep, tier)] if _name == "C06" else []))
 
 register("C07",
          "unit tier: all digraphs with self-loops on <=3 (quick) / <=4 (thorough) nodes x node kinds {provider, field, "
@@ -620,7 +622,9 @@ register("C12",
                    n_quick=180, n_thorough=1500),
           # fields of empty-interface type: value form and pointer form are mutually assignable
           lambda rep, tier: __import__("vlib.c12tier", fromlist=["x"]).run_empty_iface_fields(rep, tier),
-          lambda rep, tier: __import__("vlib.c12tier", fromlist=["x"]).run_prevented_provided(rep, tier)])
+          lambda rep, tier: __import__("vlib.c12tier", fromlist=["x"]).run_prevented_provided(rep, tier),
+          # embedded fields are fields: selected by "*", by name, by FieldsOf; rejected when their source is missing
+          lambda rep, tier: __import__("vlib.c12tier", fromlist=["x"]).run_embedded(rep, tier)])
 
 
 def _c13_part(rep, tier):
